@@ -9,7 +9,7 @@ CV = "pyopenapi_gen.core.cattrs_converter"
 
 def b64enc_text(b):
     """base64.b64encode(b).decode('utf-8') as one uninterpreted function of b"""
-    return uf("call.base64.b64encode(data).decode", uf("call.base64.b64encode", b))
+    return uf("call.decode", uf("call.base64.b64encode", b))
 
 
 c = contract(f"{CV}:unstructure_bytes_to_base64", props=["C03", "C16"], functional_opaque=["base64.b64encode", "base64.b64encode(data).decode"],
@@ -17,7 +17,7 @@ c = contract(f"{CV}:unstructure_bytes_to_base64", props=["C03", "C16"], function
 
 @c.ensures
 def ub_post(data, result):
-    return result == uf("call.base64.b64encode(data).decode", uf("call.base64.b64encode", data), "utf-8")
+    return result == uf("call.decode", uf("call.base64.b64encode", data), "utf-8")
 
 
 c = contract(f"{CV}:structure_with_base64_bytes", props=["C03", "C16"], functional_opaque=["base64.b64decode"], nothrow_calls=["b64decode"])
@@ -33,7 +33,7 @@ c = contract(f"{CV}:unstructure_date", props=["C03", "C16"], functional_opaque=[
 
 @c.ensures
 def ud_post(data, result):
-    return result == uf("call.data.isoformat", data)
+    return result == uf("call.isoformat", data)
 
 
 # ---- round-trip lemmas (verified functions of this file: they call the REAL hooks through their contracts) -----------------------
@@ -43,7 +43,7 @@ def bytes_roundtrip(b):
 
 def _b64_inverse(b):
     """assumed stdlib law: base64.b64decode(base64.b64encode(b).decode('utf-8')) == b, and the encoded text is a str"""
-    enc = uf("call.base64.b64encode(data).decode", uf("call.base64.b64encode", b), "utf-8")
+    enc = uf("call.decode", uf("call.base64.b64encode", b), "utf-8")
     return isinstance(enc, str) and uf("call.base64.b64decode", enc) == b
 
 
